@@ -55,6 +55,167 @@ theorem C19_all_translated :
     ∀ f ∈ ["SafeAdd", "SafeSub", "SafeMul", "SafeDiv", "SafeLeftShift", "SafeMulUint64", "SafeMulInt64", "Safe64MulDiv"],
       f ∈ translated := by decide
 
+/-! ## The clauses of the property, read off the exactness theorems -/
+
+/-- The eight Go integer types all have positive width (so every theorem below applies to them). -/
+def goTypes : List IntTy := [.u8, .u16, .u32, .u64, .i8, .i16, .i32, .i64]
+
+theorem C19_go_types_covered : ∀ T ∈ goTypes, 0 < T.bits := by decide
+
+/-- "never a wrapped value": an `ok r` answer of a generic function is the exact mathematical result, and it is
+representable. -/
+theorem C19_never_wraps (T : IntTy) (hw : 0 < T.bits) (x y r : Int) (hx : T.InRange x) (hy : T.InRange y) :
+    (SafeAdd T x y = .ok r → r = x + y ∧ T.InRange r) ∧
+    (SafeSub T x y = .ok r → r = x - y ∧ T.InRange r) ∧
+    (SafeMul T x y = .ok r → r = x * y ∧ T.InRange r) ∧
+    (SafeDiv T x y = .ok r → y ≠ 0 ∧ r = x.tdiv y ∧ T.InRange r) := by
+  rw [C19_add_exact T hw x y hx hy, C19_sub_exact T hw x y hx hy, C19_mul_exact T hw x y hx hy,
+    C19_div_exact T hw x y hx hy]
+  refine ⟨?_, ?_, ?_, ?_⟩
+  · intro h; obtain ⟨a, b⟩ := (exact_ok_iff T _ r).mp h; exact ⟨a, a ▸ b⟩
+  · intro h; obtain ⟨a, b⟩ := (exact_ok_iff T _ r).mp h; exact ⟨a, a ▸ b⟩
+  · intro h; obtain ⟨a, b⟩ := (exact_ok_iff T _ r).mp h; exact ⟨a, a ▸ b⟩
+  · intro h
+    by_cases hy0 : y = 0
+    · simp [hy0] at h
+    · rw [if_neg hy0] at h
+      obtain ⟨a, b⟩ := (exact_ok_iff T _ r).mp h
+      exact ⟨hy0, a, a ▸ b⟩
+
+/-- "never a spurious error": a representable result is returned, and an error is returned only when the result is
+not representable (overflow) or the divisor is zero (division by zero); the two errors are never confused. -/
+theorem C19_never_spurious (T : IntTy) (hw : 0 < T.bits) (x y : Int) (hx : T.InRange x) (hy : T.InRange y) :
+    (T.InRange (x + y) → SafeAdd T x y = .ok (x + y)) ∧ (SafeAdd T x y = .overflow → ¬ T.InRange (x + y)) ∧
+    (T.InRange (x - y) → SafeSub T x y = .ok (x - y)) ∧ (SafeSub T x y = .overflow → ¬ T.InRange (x - y)) ∧
+    (T.InRange (x * y) → SafeMul T x y = .ok (x * y)) ∧ (SafeMul T x y = .overflow → ¬ T.InRange (x * y)) ∧
+    (y ≠ 0 → T.InRange (x.tdiv y) → SafeDiv T x y = .ok (x.tdiv y)) ∧
+    (SafeDiv T x y = .overflow → y ≠ 0 ∧ ¬ T.InRange (x.tdiv y)) ∧ (SafeDiv T x y = .divzero ↔ y = 0) ∧
+    SafeAdd T x y ≠ .divzero ∧ SafeSub T x y ≠ .divzero ∧ SafeMul T x y ≠ .divzero ∧
+    SafeAdd T x y ≠ .panic ∧ SafeSub T x y ≠ .panic ∧ SafeMul T x y ≠ .panic ∧ SafeDiv T x y ≠ .panic := by
+  rw [C19_add_exact T hw x y hx hy, C19_sub_exact T hw x y hx hy, C19_mul_exact T hw x y hx hy,
+    C19_div_exact T hw x y hx hy]
+  have e := fun z => C19_exact_spec T z
+  refine ⟨?_, (exact_overflow_iff T _).mp, ?_, (exact_overflow_iff T _).mp, ?_, (exact_overflow_iff T _).mp, ?_, ?_, ?_,
+    (e _).2.2.1, (e _).2.2.1, (e _).2.2.1, (e _).2.2.2, (e _).2.2.2, (e _).2.2.2, ?_⟩
+  · intro h; exact (exact_ok_iff T _ _).mpr ⟨rfl, h⟩
+  · intro h; exact (exact_ok_iff T _ _).mpr ⟨rfl, h⟩
+  · intro h; exact (exact_ok_iff T _ _).mpr ⟨rfl, h⟩
+  · intro hy0 h; rw [if_neg hy0]; exact (exact_ok_iff T _ _).mpr ⟨rfl, h⟩
+  · intro h
+    by_cases hy0 : y = 0
+    · simp [hy0] at h
+    · rw [if_neg hy0] at h; exact ⟨hy0, (exact_overflow_iff T _).mp h⟩
+  · by_cases hy0 : y = 0
+    · simp [hy0]
+    · simp only [if_neg hy0, hy0, iff_false]; exact (e _).2.2.1
+  · by_cases hy0 : y = 0
+    · simp [hy0]
+    · rw [if_neg hy0]; exact (e _).2.2.2
+
+/-- Left shift, both clauses, every shift count. -/
+theorem C19_shl_clauses (T : IntTy) (hw : 0 < T.bits) (v r : Int) (n : Nat) (hv : T.InRange v) :
+    (SafeLeftShift T v n = .ok r → r = v * 2 ^ n ∧ T.InRange r) ∧
+    (T.InRange (v * 2 ^ n) → SafeLeftShift T v n = .ok (v * 2 ^ n)) ∧
+    (SafeLeftShift T v n = .overflow → ¬ T.InRange (v * 2 ^ n)) ∧
+    SafeLeftShift T v n ≠ .divzero ∧ SafeLeftShift T v n ≠ .panic := by
+  rw [C19_shl_exact T hw v n hv]
+  refine ⟨?_, ?_, (exact_overflow_iff T _).mp, (C19_exact_spec T _).2.2.1, (C19_exact_spec T _).2.2.2⟩
+  · intro h; obtain ⟨a, b⟩ := (exact_ok_iff T _ r).mp h; exact ⟨a, a ▸ b⟩
+  · intro h; exact (exact_ok_iff T _ _).mpr ⟨rfl, h⟩
+
+/-- The 64-bit helpers agree with the generic `SafeMul` at their type on every operand pair (twins). -/
+theorem C19_mul_twins (x y : Int) :
+    (IntTy.u64.InRange x → IntTy.u64.InRange y → SafeMulUint64 x y = SafeMul IntTy.u64 x y) ∧
+    (IntTy.i64.InRange x → IntTy.i64.InRange y → SafeMulInt64 x y = SafeMul IntTy.i64 x y) := by
+  constructor
+  · intro hx hy; rw [C19_mulU64_exact x y hx hy, C19_mul_exact IntTy.u64 (by decide) x y hx hy]
+  · intro hx hy; rw [C19_mulI64_exact x y hx hy, C19_mul_exact IntTy.i64 (by decide) x y hx hy]
+
+/-- `Safe64MulDiv`, clause by clause: exact floor quotient when it fits, overflow only when it does not, division by zero
+exactly for a zero divisor, and never the panic of `bits.Div64`. -/
+theorem C19_mulDiv64_clauses (x y d r : Int) (hx : IntTy.u64.InRange x) (hy : IntTy.u64.InRange y)
+    (hd : IntTy.u64.InRange d) :
+    (Safe64MulDiv x y d = .ok r → d ≠ 0 ∧ r = x * y / d ∧ IntTy.u64.InRange r) ∧
+    (Safe64MulDiv x y d = .overflow → d ≠ 0 ∧ ¬ IntTy.u64.InRange (x * y / d)) ∧
+    (Safe64MulDiv x y d = .divzero ↔ d = 0) ∧ Safe64MulDiv x y d ≠ .panic := by
+  rw [C19_mulDiv64_exact x y d hx hy hd]
+  by_cases hd0 : d = 0
+  · simp [hd0]
+  · simp only [if_neg hd0, hd0, iff_false, ne_eq, not_false_eq_true, true_and]
+    refine ⟨?_, (exact_overflow_iff _ _).mp, (C19_exact_spec _ _).2.2.1, (C19_exact_spec _ _).2.2.2⟩
+    intro h; obtain ⟨a, b⟩ := (exact_ok_iff _ _ r).mp h; exact ⟨a, a ▸ b⟩
+
+/-- The full statement of the property over the model: for each of the eight Go types and all operands. -/
+def C19_statement : Prop :=
+  (∀ T ∈ goTypes, ∀ x y : Int, T.InRange x → T.InRange y →
+    SafeAdd T x y = exact T (x + y) ∧ SafeSub T x y = exact T (x - y) ∧ SafeMul T x y = exact T (x * y) ∧
+    SafeDiv T x y = (if y = 0 then .divzero else exact T (x.tdiv y)) ∧
+    ∀ n : Nat, n ≤ 255 → SafeLeftShift T x n = exact T (x * 2 ^ n)) ∧
+  (∀ x y : Int, IntTy.u64.InRange x → IntTy.u64.InRange y → SafeMulUint64 x y = exact IntTy.u64 (x * y)) ∧
+  (∀ x y : Int, IntTy.i64.InRange x → IntTy.i64.InRange y → SafeMulInt64 x y = exact IntTy.i64 (x * y)) ∧
+  (∀ x y d : Int, IntTy.u64.InRange x → IntTy.u64.InRange y → IntTy.u64.InRange d →
+    Safe64MulDiv x y d = if d = 0 then .divzero else exact IntTy.u64 (x * y / d))
+
+theorem C19_statement_holds : C19_statement := by
+  refine ⟨?_, C19_mulU64_exact, C19_mulI64_exact, C19_mulDiv64_exact⟩
+  intro T hT x y hx hy
+  have hw := C19_go_types_covered T hT
+  exact ⟨C19_add_exact T hw x y hx hy, C19_sub_exact T hw x y hx hy, C19_mul_exact T hw x y hx hy,
+    C19_div_exact T hw x y hx hy, fun n _ => C19_shl_exact T hw x n hx⟩
+
+/-! ## The Go integer semantics used by the model meet their specification (`Hive/Base/GoInt.lean`) -/
+
+/-- `wrap` is *the* two's-complement reduction: the unique in-range number congruent to `z` modulo `2^bits`. -/
+theorem C19_wrap_spec (T : IntTy) (hw : 0 < T.bits) (z : Int) :
+    T.InRange (T.wrap z) ∧ (∃ k, T.wrap z = z - k * 2 ^ T.bits) ∧
+      ∀ w k : Int, T.InRange w → w = z - k * 2 ^ T.bits → w = T.wrap z := by
+  refine ⟨T.wrap_inRange hw z, T.wrap_congr hw z, ?_⟩
+  intro w k hwr hk
+  have := T.wrap_shift hw z k (by unfold IntTy.modulus; rw [← hk]; exact hwr)
+  rw [this]; exact hk
+
+/-- `bits.Mul64` as modelled: `hi·2^64 + lo = x·y` with both words in range. -/
+theorem C19_mul64_spec (x y : Int) (hx : IntTy.u64.InRange x) (hy : IntTy.u64.InRange y) :
+    (mul64 x y).1 * 2 ^ 64 + (mul64 x y).2 = x * y ∧ IntTy.u64.InRange (mul64 x y).1 ∧ IntTy.u64.InRange (mul64 x y).2 := by
+  rw [u64_inRange] at hx hy
+  simp only [mul64, u64_inRange, pow64]
+  have hp : 0 ≤ x * y := Int.mul_nonneg hx.1 hy.1
+  have hle : x * y ≤ 18446744073709551615 * 18446744073709551615 :=
+    Int.mul_le_mul (by omega) (by omega) hy.1 (by decide)
+  have hlt : x * y < 18446744073709551616 * 18446744073709551616 := by omega
+  have h1 := Int.emod_add_mul_ediv (x * y) 18446744073709551616
+  have h2 := Int.emod_nonneg (x * y) (b := 18446744073709551616) (by decide)
+  have h3 := Int.emod_lt_of_pos (x * y) (b := 18446744073709551616) (by decide)
+  have h4 : 0 ≤ x * y / 18446744073709551616 := Int.ediv_nonneg hp (by decide)
+  have h5 : x * y / 18446744073709551616 < 18446744073709551616 :=
+    Int.ediv_lt_of_lt_mul (by decide) hlt
+  omega
+
+/-- `bits.Div64` as modelled: panics exactly when the quotient does not fit (`y ≤ hi`, which includes `y = 0`),
+otherwise quotient and remainder of the 128-bit number. -/
+theorem C19_div64_spec (hi lo y : Int) (hh : IntTy.u64.InRange hi) (hy : IntTy.u64.InRange y) :
+    (div64 hi lo y = none ↔ y ≤ hi) ∧
+    ∀ q r, div64 hi lo y = some (q, r) → q * y + r = hi * 2 ^ 64 + lo ∧ 0 ≤ r ∧ r < y := by
+  rw [u64_inRange] at hh hy
+  unfold div64
+  constructor
+  · by_cases h : y = 0 ∨ y ≤ hi
+    · simp only [if_pos h, true_iff]; omega
+    · simp only [if_neg h]; constructor
+      · intro c; cases c
+      · intro c; omega
+  · intro q r h
+    by_cases hc : y = 0 ∨ y ≤ hi
+    · simp [hc] at h
+    · simp only [if_neg hc, Option.some.injEq, Prod.mk.injEq] at h
+      have hy0 : 0 < y := by omega
+      have h1 := Int.emod_add_mul_ediv (hi * 2 ^ 64 + lo) y
+      have h2 := Int.emod_nonneg (hi * 2 ^ 64 + lo) (Int.ne_of_gt hy0)
+      have h3 := Int.emod_lt_of_pos (hi * 2 ^ 64 + lo) hy0
+      rw [← h.1, ← h.2]
+      refine ⟨?_, h2, h3⟩
+      rw [Int.mul_comm]; omega
+
 /-! ## Identity of the returned errors (`errors.Is`), from regenerated facts
 
 `sentinelDefs`, `ierrorsWrappers` and `errorSites` are extracted from safe_math.go and from
@@ -92,6 +253,10 @@ one, and an unknown wrapper are all rejected. -/
 example : siteClass sentinelDefs ierrorsWrappers ⟨"f", 0, "overflow", [.fresh]⟩ = some "err" ∧
     siteClass [("ErrIntegerDivisionByZero", [.fresh]), ("ErrIntegerOverflow", [.sentinel "ErrIntegerDivisionByZero", .errorf 1])]
       ierrorsWrappers ⟨"f", 0, "overflow", [.sentinel "ErrIntegerOverflow", .call "WithMessagef"]⟩ = some "err-both" ∧
+    siteClass [("ErrIntegerOverflow", [.fresh]), ("ErrIntegerDivisionByZero", [.sentinel "ErrIntegerOverflow", .call "Wrap"])]
+      ierrorsWrappers ⟨"f", 0, "divzero", [.sentinel "ErrIntegerDivisionByZero", .call "WithMessagef"]⟩ = some "err-both" ∧
+    siteClass [("ErrIntegerOverflow", [.fresh]), ("ErrIntegerDivisionByZero", [.opaque "mystery()"])]
+      ierrorsWrappers ⟨"f", 0, "divzero", [.sentinel "ErrIntegerDivisionByZero", .call "WithMessagef"]⟩ = some "err-unknown" ∧
     siteClass sentinelDefs ierrorsWrappers ⟨"f", 0, "overflow", [.sentinel "ErrIntegerOverflow", .call "Mystery"]⟩ = none := by
   decide
 
